@@ -321,7 +321,8 @@ def _cmd_of(a, tname, idx):
         parts.append('exit 3')
     if a.get('ret') == 'cmderr':
         parts.append('exit 200')
-    return '; '.join(parts) if parts else 'true'
+    # doit expands %(targets)s etc. with the % operator: literal percent signs are doubled
+    return ('; '.join(parts) if parts else 'true').replace('%', '%%')
 
 
 def _shq(s):
@@ -486,7 +487,7 @@ def gen_b(rng, runner='serial', nproc=0):
     tasks.append(_bt('total', 4, actions=[_act(ret='dict', write=True, echo_got=True, vals={'done': 1}, out='total out')],
                      getargs=ga, targets=['total.json'], result_dep=(['solo'] if rng.random() < 0.4 else []),
                      uptodate=rng.choice(['saver', 'saver', 'false', 'none']),
-                     task_dep=(['noisy'] if rng.random() < 0.3 else [])))
+                     task_dep=(['noisy'] if rng.random() < 0.3 else []) + (['parts'] if rng.random() < 0.5 else [])))
     # extra saver tasks so that some are dispatched after the workers were started
     for i in range(rng.randint(0, 3)):
         tasks.append(_bt('late%d' % i, 5 + i, actions=[_act(ret=rng.choice(['none', 'dict']), vals={'l': i}, out='late%d' % i)],
